@@ -22,10 +22,12 @@ import (
 	"fmt"
 	"hash/fnv"
 	"os"
+	"reflect"
 	"runtime"
 	"runtime/debug"
 	"runtime/pprof"
 	"sort"
+	"strings"
 	"sync"
 	"sync/atomic"
 	"time"
@@ -87,8 +89,6 @@ func roundTrip(u *defs.Unit, c defs.Codec, inLen int) (what string, pan any) {
 			pan = fmt.Sprintf("%v\n%s", r, debug.Stack())
 		}
 	}()
-	t1 := u.Tree(c)
-	ver := valueVersion(u, t1)
 	b2 := c.AppendTo(nil)
 	if len(b2) > inLen {
 		// The re-encoding is canonical (minimal varints, defaults and
@@ -101,7 +101,11 @@ func roundTrip(u *defs.Unit, c defs.Codec, inLen int) (what string, pan any) {
 	if err := c2.ReadFrom(b2); err != nil {
 		return fmt.Sprintf("re-decoding the re-encoded value failed: %v (re-encoded: %s)", err, hexCap(b2)), nil
 	}
-	t2 := u.Tree(c2)
+	if reflect.DeepEqual(c, c2) {
+		return "", nil // identical even before normalisation
+	}
+	t1, t2 := u.Tree(c), u.Tree(c2)
+	ver := valueVersion(u, t1)
 	if d := defs.Diff(defs.NormaliseStruct(t1, ver), defs.NormaliseStruct(t2, ver), u.Name); d != "" {
 		return "value changed across AppendTo+ReadFrom (decoded vs re-decoded): " + d + " (re-encoded: " + hexCap(b2) + ")", nil
 	}
@@ -142,7 +146,11 @@ func try(u *defs.Unit, inst *defs.Inst, stage string, in []byte, unsafe bool, cn
 	} else if what != "" {
 		a := art()
 		a["kind"], a["detail"] = "roundtrip", what
-		report(problem{u.Name + ":roundtrip", fmt.Sprintf("%s v%d %s of %s: %s", u.Name, u.Version, mode, hexCap(in), what), a})
+		k := ":roundtrip"
+		if strings.HasPrefix(what, "short input") {
+			k = ":short-input"
+		}
+		report(problem{u.Name + k, fmt.Sprintf("%s v%d %s of %s: %s", u.Name, u.Version, mode, hexCap(in), what), a})
 	}
 }
 
@@ -347,7 +355,7 @@ func main() {
 	}
 
 	r := ev.New("C16", "exploration")
-	r.Rule("every kmsg decoder (ReadFrom and UnsafeReadFrom of every request/response through RequestForKey/ResponseForKey 0..MaxKey, every stand-alone embedded type, hand written Record and StickyMemberMetadata) at min and max version (quick) / every version (thorough) on: (a) all 65,793 byte strings of length <= 2 (thorough: all strings of length 3 for the 30 types with the fewest fields, see three_byte_rule); (b) every proper prefix of the reference encodings of the two C15 base valuations (all-default, all-populated); (c) every single-byte substitution from {00,01,7f,80,fe,ff} at every position of those encodings; (d) allocation pass, one goroutine: every byte of every length prefix (array/string/bytes length, tag count, tag size, struct marker) of those encodings replaced by 7f/fe/ff and every whole prefix replaced by a ladder of claims 0x7f, 0xff, 0xfff .. 0x7fffffff (and the negative extremes), smallest claim first; the same inputs also go through the panic and round-trip oracles. Distinct = (type, version, stage, decoder, outcome) classes; distinct structured inputs counted separately")
+	r.Rule("every kmsg decoder (ReadFrom and UnsafeReadFrom of every request/response through RequestForKey/ResponseForKey 0..MaxKey, every stand-alone embedded type, hand written Record and StickyMemberMetadata) at min and max version (quick) / every version (thorough) on: (a) all 65,793 byte strings of length <= 2 (thorough: all strings of length 3 for the 30 types with the fewest fields at their min and max version, see three_byte_rule); (b) every proper prefix of the reference encodings of the two C15 base valuations (all-default, all-populated); (c) every single-byte substitution from {00,01,7f,80,fe,ff} at every position of those encodings; (d) allocation pass, one goroutine: every byte of every length prefix (array/string/bytes length, tag count, tag size, struct marker) of those encodings replaced by 7f/fe/ff and every whole prefix replaced by a ladder of claims 0x7f, 0xff, 0xfff .. 0x7fffffff (and the negative extremes), smallest claim first; the same inputs also go through the panic and round-trip oracles. Distinct = (type, version, stage, decoder, outcome) classes; distinct structured inputs counted separately")
 	r.Assume("allocation is measured as runtime.MemStats.TotalAlloc delta around one decode while no other goroutine of the process runs harness code; a measurement above the bound is repeated three times and the minimum is used",
 		"bound: delta <= 1 KiB * len(input) + 64 KiB (DESIGN.md C16)",
 		"equality after re-encode/re-decode uses the C15 normalisation (nil == empty only where the field is not nullable at that version), floats by bit pattern",
@@ -576,6 +584,7 @@ alloc:
 	// (a3) thorough: all strings of length 3 for the 30 smallest types
 	var smallNames, excludedUnits []string
 	var excluded3 int64
+	threeByteUnits := 0
 	if thorough {
 		type ts struct {
 			n string
@@ -592,10 +601,11 @@ alloc:
 			smallNames = append(smallNames, fmt.Sprintf("%s(%d)", t.n, t.p))
 		}
 		for _, u := range sweepUnits {
-			if !small[u.Name] {
-				continue
+			if us := byType[u.Name]; !small[u.Name] || (u != us[0] && u != us[len(us)-1]) {
+				continue // 3-byte strings: min and max version of the 30 types
 			}
 			u := u
+			threeByteUnits++
 			tc := leadingTagCount(u)
 			if tc >= 0 {
 				excludedUnits = append(excludedUnits, fmt.Sprintf("%s@%d", u, tc))
@@ -661,7 +671,7 @@ alloc:
 		r.Set("three_byte_rule", "units whose layout at that version puts the tag-section count at a fixed offset 0 or 1 (no field, or one 1-byte field, before it; listed as unit@offset) leave out the 3-byte inputs whose byte at that offset has the high bit set: the count is then a multi-byte uvarint that the decoder iterates even after the input is exhausted (see note_decode_time), 10^2..10^4 s per unit without reaching new code; every other 3-byte string is run")
 	}
 	r.Set("note_decode_time", "not a violation of C16 as stated (time is not in the statement): internalReadTags (api.go) and the generated tag loops run `for n := b.Uvarint(); n > 0; n--` without testing b.Ok(), so a 5-byte body ff ff ff ff 0f in a flexible struct without defined tags spins 2^32-1 iterations before returning ErrNotEnoughData; memory stays constant")
-	r.Set("bound_completed", map[string]any{"len<=2": "all units of the blind sweep", "len3": len(smallNames), "truncations+substitutions": "both base valuations of all structured units", "alloc_bound": "1KiB*len+64KiB"})
+	r.Set("bound_completed", map[string]any{"len<=2": "all units of the blind sweep", "len3": fmt.Sprintf("%d types, min and max version: %d units", len(smallNames), threeByteUnits), "truncations+substitutions": "both base valuations of all structured units", "alloc_bound": "1KiB*len+64KiB"})
 	if len(reg.Uncovered) > 0 {
 		r.NotExhaustive(fmt.Sprintf("%d types could not be driven, see uncovered_types", len(reg.Uncovered)))
 	}
